@@ -56,31 +56,31 @@ def scope_fns(ctx, which):
     raise ValueError(which)
 
 
-def _match_entry(entries, site, facts=None):
-    """The audit entry covering a site.  A site inside a closure, or inside a helper that is not in the baseline
-    table, is looked up under the baseline function it is part of as well (moving audited code into a closure or a
-    private helper, or out of one, does not un-audit it)."""
+def _match_entries(entries, site, facts=None):
+    """Audit entries that can cover a site, best first.  A site inside a closure, or inside a helper that is not in
+    the baseline table, is looked up under the baseline function it is part of as well (moving audited code into a
+    closure or a private helper, or out of one, does not un-audit it); inside such a helper the indexed value goes
+    by the helper's parameter name, so the entry's base is not compared there."""
     fn = strip_generics(site.fn)
     fns = [fn]
     if facts is not None:
         fns += sorted(facts.owners_of(fn) - {fn})
     base = M.show(site.ops[0]) if site.ops and "index" in site.kind else ""
+    exact, loose = [], []
     for f in fns:
-        best = None
         for e in entries:
             efn = e["fn"]
             if "::{closure" in efn and f != efn:
                 efn = efn[:efn.index("::{closure")]
             if efn != f or e["kind"] != site.kind:
                 continue
-            if "base" in e:
-                if e["base"] != base:
-                    continue
-                return e
-            best = best or e
-        if best is not None:
-            return best
-    return None
+            if "base" in e and e["base"] != base:
+                if f != fn and "::{closure" not in fn:
+                    loose.append(e)
+                continue
+            exact.append(e)
+    exact.sort(key=lambda e: 0 if "base" in e else 1)
+    return exact + loose
 
 
 def _subst_arg(spec, args, pnames=None):
@@ -120,7 +120,8 @@ def run(run, ctx, fns, label, restrict=None):
                                     "obligation": "%s(%s) in %s" % (s.kind, s.opstr(), strip_generics(s.fn)),
                                     "by": s.proof})
             continue
-        e = _match_entry(entries, s, ctx.facts)
+        cands = _match_entries(entries, s, ctx.facts)
+        e = next((x for x in cands if used.get(id(x), 0) < x["count"]), cands[0] if cands else None)
         fnp = strip_generics(s.fn)
         okey = (fnp, s.kind, s.opstr())
         ordinal[okey] = ordinal.get(okey, 0) + 1
